@@ -153,6 +153,12 @@ def build_history(ex, variant):
         # finished, or interrupted after its second hunk
         if ex.branch(ex.fresh_bool('newest_closed'), 'band closed?'):
             A.put_tail(ex, st, 0, 2)
+    elif variant == 'subdir':
+        # a directory recorded in one hunk and the file inside it in the next: losing the first hunk must not cost the file
+        A.put_head(ex, st, 0)
+        A.put_hunk(ex, st, 0, 0, [root(), A.mk_entry(ex, '/d', 'Dir', 2, mode=0o750)])
+        A.put_hunk(ex, st, 0, 1, [A.mk_entry(ex, '/d/f', 'File', 3, addrs=[block('A', 1)], mode=0o644)])
+        A.put_tail(ex, st, 0, 2)
     elif variant == 'deep':
         # a finished band of three hunks and an unfinished newer one of two hunks that stitches onto it for its tail
         A.put_head(ex, st, 0)
@@ -311,8 +317,16 @@ def make_contained(prog, op, variant='single'):
                         untouched = aft.get(p) == parts and all(hl for _, hl in parts)
                         if untouched:
                             cls_ok = restored and all(c != 99 for c, o, l in n.content)
-                            if not cls_ok:
+                            parent = p.rsplit('/', 1)[0]
+                            parent_lost = bool(parent) and any(q == parent for q, _k, _p in before[b]) and parent not in aft
+                            if not cls_ok and parent_lost and errs:
+                                # a distinct, recorded situation: the file's own hunk and blocks are intact but the entry of its
+                                # directory was in the damaged hunk, and restore does not create missing parents (it reports the failure)
+                                out['problems'].append('%s of band %d (index hunk and blocks untouched) was not restored: the entry of its directory %s was lost and restore does not create missing parent directories' % (p, b, parent))
+                                out['site'] = 'parent-directory-entry-lost'
+                            elif not cls_ok:
                                 out['problems'].append('%s of band %d (index hunk and blocks untouched) was not restored exactly' % (p, b))
+                                out['site'] = None
                         else:
                             bad_content = restored and any(c == 99 for c, o, l in n.content)
                             if bad_content:
@@ -356,6 +370,7 @@ def make_contained(prog, op, variant='single'):
                 res['bad'].append({'kind': 'problem', 'op': op, 'target': out['target'], 'path': out['path'], 'how': out['how'],
                                    'problems': out['problems'][:4], 'result': out.get('result'), 'errors': out.get('errors'),
                                    'quick': out.get('quick'), 'variant': variant, 'band': out.get('band'),
+                                   'site': out.get('site') if all('does not create missing parent' in p_ for p_ in out['problems']) else None,
                                    'newest_closed': (B.model_values(ex.E.check()[1]) or {}).get('newest_closed'),
                                    'sizes': {k: v for k, v in (B.model_values(ex.E.check()[1]) or {}).items() if k.startswith('size')}})
             elif len(res['samples']) < 2 and out.get('harmful'):
